@@ -562,8 +562,22 @@ class World:
             items = list(it.iterate(a[0], n))
             h = self.hooks.get("sorted")
             if h:
+                if h.__code__.co_argcount >= 5:
+                    return h(it, items, a[0], n, k)
+                if k:
+                    it.unsupported("sorted() with key= / reverse= under a contract that abstracts sorted()", n)
                 return h(it, items, a[0], n)
-            return PList(self.sort_items(it, items, n))
+            if k.get("key") is not None:
+                # decorate - sort - undecorate (stable), as CPython does
+                keys = [it.call(k["key"], [x], {}, n) for x in items]
+                order = self.sort_items(it, [(kx, i) for i, kx in enumerate(keys)], n, by_first=True)
+                items = [items[i] for _, i in order]
+            else:
+                items = self.sort_items(it, items, n)
+            if k.get("reverse") is not None and it.truth(k["reverse"]):
+                # reverse=True keeps the original order of equal elements: sort the reversed input, then reverse
+                it.unsupported("sorted(reverse=True)", n)
+            return PList(items)
 
         @reg("list")
         def _list(it, a, k, n):
@@ -765,13 +779,13 @@ class World:
                     best = x
         return best
 
-    def sort_items(self, it, items, n):
+    def sort_items(self, it, items, n, by_first=False):
         out = []
         for x in items:
             pos = len(out)
             # stable insertion: insert after the last element that is <= x, i.e. before first y with x < y
             for i, y in enumerate(out):
-                if it.truth(it.compare(ast.Lt(), x, y, n)):
+                if it.truth(it.compare(ast.Lt(), x[0] if by_first else x, y[0] if by_first else y, n)):
                     pos = i
                     break
             out.insert(pos, x)
